@@ -554,7 +554,9 @@ class DeltaCoherenceEnumeration(NativeCheck):
     bound_text = ("bounded: histories of H cycles, each a sequence of at most L mutations through the public Out<> API of a real "
                   "producer node over a small universe (TSS: add/remove of 2 elements; TSD<Int,TS<Int>>: set of 2 values / erase "
                   "over 2 keys; TSD<Int,TSS<Int>>: erase, child add/remove over 2 keys x 2 elements); quick: TSS H=2 L=3 (7 225), "
-                  "TSD H=1 L=3 (259) + H=2 L=2 (1 849), TSD-of-TSS H=1 L=4 (4 681) + 3 000 random H=3 L=3; thorough: TSD H=2 L=3 "
+                  "TSD H=1 L=3 (259) + H=2 L=2 (1 849), TSD-of-TSS H=1 L=4 (4 681) + 3 000 random H=3 L=3; TSS with WHOLE-VALUE assignment "
+                  "(move_value_from of each of the 8 subsets of {1,2,3}) next to add/remove, the value at each tick also compared with an "
+                  "explicit set model: H=3 L=1 (2 197), H=2 L=2 (24 649), 3 000 random H=4 L=2; thorough: TSD H=2 L=3 "
                   "(67 081), TSD-of-TSS H=2 L=3 (342 225, sharded), TSS H=3 L=3")
     functions = ("ts_data_slot_ops.cpp:TSDSlotStorage::insert_key/remove_key/record_child_modified",
                  "ts_data_slot_ops.cpp:TSSSlotStorage::*", "ts_delta.cpp:capture_delta / apply_delta (TSS, TSD)")
@@ -564,9 +566,11 @@ class DeltaCoherenceEnumeration(NativeCheck):
             jobs = [(["tss", "3", "3"], {"SHARD": "%d/4" % i}) for i in range(4)]
             jobs += [(["tsd", "2", "3"], {"SHARD": "%d/2" % i}) for i in range(2)]
             jobs += [(["tsd_tss", "2", "3"], {"SHARD": "%d/10" % i}) for i in range(10)]
+            jobs += [(["tssassign", "3", "2"], {"SHARD": "%d/8" % i}) for i in range(8)]
             return jobs
         return [(["tss", "2", "3"], {}), (["tsd", "1", "3"], {}), (["tsd", "2", "2"], {}), (["tsd_tss", "1", "4"], {}),
-                (["tsd_tss", "3", "3", "3000", "5"], {})]
+                (["tsd_tss", "3", "3", "3000", "5"], {}), (["tssassign", "3", "1"], {}), (["tssassign", "2", "2"], {}),
+                (["tssassign", "4", "2", "3000", "9"], {})]
 
 
 NATIVE = [DeltaCoherenceEnumeration]
